@@ -10,8 +10,17 @@ def handle (fn : String) (args : List Json) : String :=
   | "_validate_juridical" => match args with
     | [a0] => (do let x0 ← Wire.decStr a0; pure (Wire.respondWith Wire.encStr (Gen.ec_ruc._validate_juridical x0)) : Option String).getD "badargs"
     | _ => "badargs"
+  | "_validate_natural" => match args with
+    | [a0] => (do let x0 ← Wire.decStr a0; pure (Wire.respondWith Wire.encStr (Gen.ec_ruc._validate_natural x0)) : Option String).getD "badargs"
+    | _ => "badargs"
   | "_validate_public" => match args with
     | [a0] => (do let x0 ← Wire.decStr a0; pure (Wire.respondWith Wire.encStr (Gen.ec_ruc._validate_public x0)) : Option String).getD "badargs"
+    | _ => "badargs"
+  | "is_valid" => match args with
+    | [a0] => (do let x0 ← Wire.decStr a0; pure (Wire.respondWith Wire.encBool (Gen.ec_ruc.is_valid x0)) : Option String).getD "badargs"
+    | _ => "badargs"
+  | "validate" => match args with
+    | [a0] => (do let x0 ← Wire.decStr a0; pure (Wire.respondWith Wire.encStr (Gen.ec_ruc.validate x0)) : Option String).getD "badargs"
     | _ => "badargs"
   | _ => "nofunc"
 end Driver.D_ec_ruc
